@@ -272,6 +272,67 @@ def check(ctx):
                     else:
                         rep.proved("R-C66-copy", f"{m.relpath}:{f.qualname}", "returns a stored rule object (values of this registry are replaced, never mutated)")
     rep.floor("public readers returning registry content", n_ret, 2)
+
+    # ---- R-C66-copy: the value class's own copy()/constructor really produce fresh objects --------
+    from ..index import ClassInfo, FuncInfo
+
+    for v, (pname, st, _kw) in cvars.items():
+        if not value_mutated[v]:
+            continue
+        pdef = next((t for t in m.tree.body if isinstance(t, ast.Assign) and any(isinstance(x, ast.Name) and x.id == pname for x in t.targets)), None)
+        vcls = None
+        if pdef is not None and isinstance(pdef.value, ast.Call) and pdef.value.args:
+            r = ix.resolve_expr(m, pdef.value.args[0])
+            if isinstance(r, ClassInfo):
+                vcls = r
+        if vcls is None:
+            rep.unknown("R-C66-copy", f"{m.relpath}:{pname}", "class of the registry's value collections not resolved")
+            continue
+        dc, cp = vcls.lookup("copy")
+        if not isinstance(cp, FuncInfo):
+            rep.proved("R-C66-copy", f"{vcls.module.relpath}:{vcls.name}.copy", "inherits the builtin copy()", nontrivial=False)
+        else:
+            rep.analysed(cp.module.relpath, cp.qualname)
+            rets = [n for n in walk_shallow(cp.node) if isinstance(n, ast.Return)]
+            bad = [n for n in rets if n.value is None or (isinstance(n.value, ast.Name) and n.value.id == "self")]
+            ctor_ok = all(isinstance(n.value, ast.Call) for n in rets if n not in bad)
+            if bad:
+                rep.refuted("R-C66-copy", cp.module.relpath, cp.qualname, bad[0],
+                            f"{vcls.name}.copy() can return the collection itself: local_decomps then installs (and list_decomps hands out) "
+                            "the very object stored in the enclosing/global registry, so additions inside a context leak out")
+            elif ctor_ok and rets:
+                rep.proved("R-C66-copy", f"{cp.module.relpath}:{cp.qualname}", "every return constructs a new collection")
+            else:
+                rep.unknown("R-C66-copy", f"{cp.module.relpath}:{cp.qualname}", "return form not modelled")
+        # constructor must not adopt the caller's mutable mapping
+        ic, init = vcls.lookup("__init__")
+        if isinstance(init, FuncInfo):
+            rep.analysed(init.module.relpath, init.qualname)
+            icfg = CFG(init.node, may_raise=lambda n: False)
+            iparams = {a.arg for a in init.node.args.args[1:]}
+            for nd in icfg.stmts("stmt"):
+                s_ = nd.stmt
+                if isinstance(s_, ast.Assign) and any(isinstance(t, ast.Attribute) and isinstance(t.value, ast.Name) and t.value.id == "self" for t in s_.targets) \
+                        and isinstance(s_.value, ast.Name) and s_.value.id in iparams:
+                    pn = s_.value.id
+
+                    def fresh_rebind(x, pn=pn):
+                        a = x.stmt
+                        return (x.kind == "stmt" and isinstance(a, ast.Assign) and any(isinstance(t, ast.Name) and t.id == pn for t in a.targets)
+                                and isinstance(a.value, (ast.Dict, ast.DictComp, ast.List, ast.ListComp)) or
+                                (x.kind == "stmt" and isinstance(a, ast.Assign) and any(isinstance(t, ast.Name) and t.id == pn for t in a.targets)
+                                 and isinstance(a.value, ast.Call) and (call_name(a.value) or "").split(".")[-1] in ("dict", "list", "copy", "deepcopy")))
+
+                    if icfg.path_avoiding(icfg.entry, nd.id, fresh_rebind) is not None:
+                        rep.refuted("R-C66-copy", init.module.relpath, init.qualname, s_,
+                                    f"{vcls.name}.__init__ stores the caller's mapping `{pn}` without copying it: {vcls.name}.copy() then shares its "
+                                    "contents with the original, so rules appended in a local context appear in the enclosing registry")
+                    else:
+                        rep.proved("R-C66-copy", f"{init.module.relpath}:{init.qualname} {norm(s_)}", "parameter rebound to a fresh object on every path")
+                elif isinstance(s_, ast.Assign) and any(isinstance(t, ast.Attribute) and isinstance(t.value, ast.Name) and t.value.id == "self" for t in s_.targets):
+                    r2 = method_call(s_.value) if isinstance(s_.value, ast.Call) else None
+                    if r2 and r2[1] == "copy":
+                        rep.proved("R-C66-copy", f"{init.module.relpath}:{init.qualname} {norm(s_)}", "stores a copy of the argument")
     rep.extra["registries"] = {v: p for v, (p, _, _) in cvars.items()}
     rep.extra["values_mutated_in_place"] = value_mutated
     return rep
